@@ -223,11 +223,39 @@ def load_known_findings():
         return json.load(open(p))
     return {"known": [], "fixed": []}
 
+def regen_all():
+    """regenerate every translator output (lean/NeverModel/Gen/*.lean) from /repo's CURRENT working tree, so that no
+    check ever builds against tables left behind by an earlier run on a different tree.  Failures are not fatal here:
+    the checks that own a translator report a broken tie themselves."""
+    notes = []
+    sys.path.insert(0, os.path.join(VERIF, "gen"))
+    try:
+        rc, out = run([sys.executable, os.path.join(VERIF, "gen", "opcodes.py")])
+        if rc != 0:
+            notes.append("opcodes: " + out[-300:])
+    except Exception as e:
+        notes.append("opcodes: %r" % (e,))
+    try:
+        import buildimpl, numtab
+        info = buildimpl.build("plain")
+        with Lock(os.path.join(SCRATCH, "lake.lock")):
+            numtab.write(info["src"], os.path.join(LEAN, "NeverModel", "Gen"))
+    except Exception as e:
+        notes.append("numtab: %s" % (str(e)[:300],))
+    try:
+        import parsertab
+        with Lock(os.path.join(SCRATCH, "lake.lock")):
+            parsertab.generate()
+    except Exception as e:
+        notes.append("parsertab: %s" % (str(e)[:300],))
+    return notes
+
 def proof_stage(rep, prop_module, extra_targets=("nmdrv",), search=None, required=()):
     """build the property's cone, scan for forbidden constructs, audit axioms.
     On a broken proof: call `search()` (looks for a concrete failing input on I/M);
     reports VIOLATION accordingly. Returns True when the proof side is intact."""
     ok = True
+    rep.cov["translator_notes"] = regen_all()
     rc, out = lake_build([prop_module] + list(extra_targets))
     thms = list_theorems(prop_module)
     rep.cov["checker_cmd"] = "lake build %s && lake env lean Audit(#print axioms) [&& lake env leanchecker %s]" % (prop_module, prop_module)
